@@ -190,6 +190,12 @@ pub fn run_op(op: &str, a: &[Tok]) -> String {
             let l: Vec<<C as Pairing>::Signature> = a[0].list().iter().map(tok_sig).collect();
             hexpt(&<C as BlsMultiSignature>::from_signatures(l.into_iter()))
         }
+        "trait_create_decryption_share" => {
+            match <C as BlsSignCrypt>::create_decryption_share(&sks(&a[0]).0, tok_pk(&a[1])) {
+                Ok(s) => { let b: Vec<u8> = s.0.to_vec(); format!("ok:{}", fmt_share(&b)) }
+                Err(e) => format!("err:{}", err_kind(&e)),
+            }
+        }
         "trait_partial_verify" => {
             let pk = pks(&a[1]);
             let sg = sigshare(a[0].scheme(), &a[2]);
